@@ -42,6 +42,8 @@ struct TestErr
 using sender_t = ex::unique_any_sender<P>;
 
 static long long fold(long long a, long long b) { return (a * 31 + b + 7) % 1000003; }
+// the value a consumer produces from the error it received (error id e, consumer j); e = -3: a null exception_ptr, -2: foreign exception
+static long long obs_code(long long e, int j) { return 500000 + e * 10 + j; }
 
 // ---- terms ---------------------------------------------------------------------------------------
 enum Node
@@ -63,6 +65,7 @@ struct Term
     int timing = 0;          // N_LEAF: 0 inline, 1 later on pool, 2 later on OS thread
     int err = 0;             // error id for leaf error / then(throw)
     int k = 2;               // split consumers / bulk n
+    bool obs = false;        // split / split_tuple: every consumer turns an error into a value that encodes what IT received (not only the first error is observed)
     std::vector<std::unique_ptr<Term>> kids;    // operands; let_value/let_error: kids[0] predecessor, kids[1] continuation term
 };
 
@@ -97,6 +100,7 @@ static std::unique_ptr<Term> gen(GenCtx& g, int depth)
     tm->val = 1 + static_cast<long long>(g.t.below(20));
     tm->err = 6 + static_cast<int>(g.t.below(5));
     tm->k = 1 + static_cast<int>(g.t.below(3));
+    tm->obs = (tm->err % 2) == 0;    // (derived from an existing draw: older replay tapes keep their meaning)
     int nk = 1;
     if (tm->node == N_LET_VALUE || tm->node == N_LET_ERROR) nk = 2;
     if (tm->node == N_WHEN_ALL) nk = 2 + static_cast<int>(g.t.below(2));
@@ -126,6 +130,7 @@ static void describe_term(Term const& x, std::ostream& os)
     if (x.node == N_THEN) os << "+" << x.val << " ";
     if (x.node == N_THEN_THROW) os << "throw#" << x.err << " ";
     if (x.node == N_SPLIT) os << "consumers=" << x.k << " ";
+    if ((x.node == N_SPLIT || x.node == N_SPLIT_TUPLE) && x.obs) os << "each_consumer_observes_errors ";
     if (x.node == N_BULK) os << "n=" << x.k * 3 << " ";
     for (std::size_t i = 0; i < x.kids.size(); ++i)
     {
@@ -187,12 +192,31 @@ static ResSet eval(Term const& x, long long off)
     case N_CONTINUES_ON: case N_DROP_OP_STATE: case N_REQUIRE_STARTED: case N_ENSURE_STARTED: case N_ANY_SENDER: return eval(*x.kids[0], off);
     case N_DROP_VALUE_THEN: return map_values(eval(*x.kids[0], off), [&](long long) { return ResSet{Res{0, x.val}}; });
     case N_SPLIT:
-        return map_values(eval(*x.kids[0], off), [&](long long v) {
-            long long acc = 0;
-            for (int j = 0; j < x.k; ++j) acc = fold(acc, v + j + 1);
-            return ResSet{Res{0, acc}};
-        });
-    case N_SPLIT_TUPLE: return map_values(eval(*x.kids[0], off), [&](long long v) { return ResSet{Res{0, fold(v + 1, v + 2)}}; });
+    {
+        ResSet out;
+        for (auto const& r : eval(*x.kids[0], off))
+        {
+            if (r.kind == 0 || (r.kind == 1 && x.obs))
+            {
+                long long acc = 0;
+                for (int j = 0; j < x.k; ++j) acc = fold(acc, r.kind == 0 ? r.v + j + 1 : obs_code(r.v, j));
+                out.insert(Res{0, acc});
+            }
+            else out.insert(r);
+        }
+        return out;
+    }
+    case N_SPLIT_TUPLE:
+    {
+        ResSet out;
+        for (auto const& r : eval(*x.kids[0], off))
+        {
+            if (r.kind == 0) out.insert(Res{0, fold(r.v + 1, r.v + 2)});
+            else if (r.kind == 1 && x.obs) out.insert(Res{0, fold(obs_code(r.v, 0), obs_code(r.v, 1))});
+            else out.insert(r);
+        }
+        return out;
+    }
     case N_UNPACK: return map_values(eval(*x.kids[0], off), [&](long long v) { return ResSet{Res{0, fold(v + 3, v + 4)}}; });
     case N_BULK:
         return map_values(eval(*x.kids[0], off), [&](long long v) {
@@ -303,6 +327,13 @@ struct LeafSender
 
 // ---- building the real pipeline ---------------------------------------------------------------------
 static sender_t build(Term const& x, long long off);
+static long long err_id(std::exception_ptr const& ep)
+{
+    if (!ep) return -3;
+    try { std::rethrow_exception(ep); }
+    catch (TestErr const& t) { return t.e; }
+    catch (...) { return -2; }
+}
 
 static sender_t build(Term const& x, long long off)
 {
@@ -340,7 +371,12 @@ static sender_t build(Term const& x, long long off)
     case N_SPLIT:
     {
         auto s = ex::split(build(*x.kids[0], off));
-        auto mk = [&](int j) { return ex::then(s, [j](P const& p) { return P(p.v + j + 1); }); };
+        bool obs = x.obs;
+        auto mk = [&](int j) -> sender_t {
+            if (!obs) return sender_t(ex::then(s, [j](P const& p) { return P(p.v + j + 1); }));
+            // (erased first: let_error does not compile over a predecessor whose error types contain exception_ptr twice)
+            return sender_t(ex::let_error(sender_t(ex::then(s, [j](P const& p) { return P(p.v + j + 1); })), [j](std::exception_ptr& ep) { return ex::just(P(obs_code(err_id(ep), j))); }));
+        };
         auto fold2 = [](P a, P b) { return P(fold(fold(0, a.v), b.v)); };
         if (x.k == 1) return sender_t(ex::then(mk(0), [](P a) { return P(fold(0, a.v)); }));
         if (x.k == 2) return sender_t(ex::then(ex::when_all(mk(0), mk(1)), fold2));
@@ -350,6 +386,12 @@ static sender_t build(Term const& x, long long off)
     {
         auto tup = ex::then(build(*x.kids[0], off), [](P p) { return std::make_tuple(P(p.v + 1), P(p.v + 2)); });
         auto [a, b] = ex::split_tuple(std::move(tup));
+        if (x.obs)
+        {
+            auto a2 = ex::let_error(sender_t(std::move(a)), [](std::exception_ptr& ep) { return ex::just(P(obs_code(err_id(ep), 0))); });
+            auto b2 = ex::let_error(sender_t(std::move(b)), [](std::exception_ptr& ep) { return ex::just(P(obs_code(err_id(ep), 1))); });
+            return sender_t(ex::then(ex::when_all(std::move(a2), std::move(b2)), [](P const& a, P const& b) { return P(fold(a.v, b.v)); }));
+        }
         return sender_t(ex::then(ex::when_all(std::move(a), std::move(b)), [](P const& a, P const& b) { return P(fold(a.v, b.v)); }));
     }
     case N_UNPACK:
